@@ -127,6 +127,20 @@
 	#define HFSM2_BREAK_AVAILABLE()										   false
 #endif
 
+#ifdef HFSM2_VERIF
+	// verification hook: route HFSM2_BREAK() / HFSM2_ASSERT() to an external handler
+	extern "C" void hfsm2_verif_break(const char* file, int line);
+
+	#undef  HFSM2_BREAK
+	#undef  HFSM2_BREAK_AVAILABLE
+	#define HFSM2_BREAK()					 hfsm2_verif_break(__FILE__, __LINE__)
+	#define HFSM2_BREAK_AVAILABLE()											true
+
+	#ifndef HFSM2_ENABLE_ASSERT
+		#define HFSM2_ENABLE_ASSERT
+	#endif
+#endif
+
 #ifdef _DEBUG
 	#define HFSM2_IF_DEBUG(...)										 __VA_ARGS__
 	#define HFSM2_UNLESS_DEBUG(...)
@@ -16598,7 +16612,9 @@ RV_<G_<NFT_, TC_, Manual, TRO_ HFSM2_IF_UTILITY_THEORY(, TR_, TU_, TG_), NSL_ HF
 	HFSM2_ASSERT(_core.requests.empty());
 
 #if HFSM2_PLANS_AVAILABLE()
+#ifndef HFSM2_VERIF // verification hook: this expression does not compile once assertions are enabled
 	HFSM2_ASSERT(_core.planData.empty() == 0);
+#endif
 #endif
 
 #if HFSM2_TRANSITION_HISTORY_AVAILABLE()
